@@ -53,10 +53,13 @@ Fault(e) == /\ err' = (IF e.fatal /\ simset /\ phase = "live" THEN First(e.e) EL
 (* line announced: an abort() arriving then comes too late)                              *)
 Abort(e) == /\ err' = (IF phase = "finished" \/ (doomed /\ stopt0 # NONE) THEN err ELSE First(e.e))
             /\ UNCHANGED <<simset, supf, started, failedstart, stopcnt, sast, sabeg, stopt0, phase, doomed, sdrun, sdwant>>
+(* shutdown() was called (by another task) and has made its request: a normal stop *)
+StopReq(e) == /\ err' = (IF phase = "finished" THEN err ELSE First(0))
+              /\ UNCHANGED <<simset, supf, started, failedstart, stopcnt, sast, sabeg, stopt0, phase, doomed, sdrun, sdwant>>
 SupFail(e) == /\ supf' = (IF supf = NONE THEN e.e ELSE supf)
               /\ UNCHANGED <<simset, err, started, failedstart, stopcnt, sast, sabeg, stopt0, phase, doomed, sdrun, sdwant>>
 (* external events enter only a running circuit and are marked as external *)
-Ext(e) == /\ IF Ready THEN /\ e.outcome = "delivered" /\ e.deliv
+Ext(e) == /\ IF Ready THEN /\ e.outcome = "delivered" /\ e.deliv /\ e.retok      \* the handler's result is returned
                            /\ e.got = ExpectedSource(e.src) /\ e.valok /\ e.restok
                       ELSE e.outcome = "invalid" /\ ~e.deliv
           /\ Same
@@ -116,6 +119,7 @@ Step == /\ l <= Len(Ev(tid))
                 \/ e.ev = "fault" /\ Fault(e)
                 \/ e.ev = "abort" /\ Abort(e)
                 \/ e.ev = "supfail" /\ SupFail(e)
+                \/ e.ev = "stopreq" /\ StopReq(e)
                 \/ e.ev = "ext" /\ Ext(e)
                 \/ e.ev = "extbad" /\ ExtBad(e)
                 \/ e.ev = "mkname" /\ MkName(e)
